@@ -274,6 +274,9 @@ def run_property(pid, tier, replay=None, quiet=False, no_evidence=False):
         write_evidence(pid, tier, ctx, mod, time.time() - t0, new, listed, canaries=canaries)
     else:
         shutil.rmtree(os.path.dirname(rep_dir), ignore_errors=True)
+    for c in canaries:
+        if c.get('note') and c.get('applied'):
+            print('NOTE canary %s: %s' % (c.get('id'), c['note']))
     if dead:
         print('INFRA-ERROR property=%s rule cannot fire: canary %s (a deliberate violation injected into a scratch copy) was not reported' % (pid, dead))
         return 2
